@@ -142,6 +142,30 @@ theorem symmetrize_spec (lo hi : Rat) (g g0 : RowFn) (xyz : List V3) :
   intro p _
   by_cases h : lo + (hi - lo) / 2 < p.x <;> simp [h]
 
+/-- **symmetrize_neuron_spec.** `symmetrize_brain` on a whole neuron, with `h p = if p right of the midplane
+then g0 (g p) else p`: node/vertex/point and connector coordinates are moved by `h` and nothing else changes
+(faces are not re-wound: two flips cancel); a Dotprops with `k` has its tangents dropped for regeneration; a
+k-less Dotprops *keeps* tangents — the direction of row `i` is `h pᵢ − h (pᵢ + 2·res·vᵢ)`, carried through
+helper points exactly as `mirror_brain` does (the behaviour since navis' `fix:` commit; before it the tangents
+were dropped and `.vect` raised). -/
+theorem symmetrize_neuron_spec {α β μ} (lo hi : Rat) (g g0 : RowFn) (n : Neuron α β μ) :
+    let h : RowFn := fun p => if lo + (hi - lo) / 2 < p.x then g0 (g p) else p
+    (n.kind ≠ Kind.dots →
+      symmetrizeNeuron (symmetrize lo hi g g0) n
+        = some { n with pts := n.pts.mapXYZ h, conns := n.conns.map (Table.mapXYZ h) })
+    ∧ (n.kind = Kind.dots → usesHelpers n.k = false →
+      symmetrizeNeuron (symmetrize lo hi g g0) n
+        = some { n with pts := n.pts.mapXYZ h, vect := none, alpha := none, conns := n.conns.map (Table.mapXYZ h) })
+    ∧ (n.kind = Kind.dots → usesHelpers n.k = true → ∀ v, n.vect = some v → v.length = n.pts.xyz.length →
+      symmetrizeNeuron (symmetrize lo hi g g0) n = some { n with
+        pts := n.pts.mapXYZ h
+        vect := some (List.zipWith (fun p w => V3.sub (h p) (h (V3.add p (V3.smul (n.res * 2) w)))) n.pts.xyz v)
+        conns := n.conns.map (Table.mapXYZ h) }) := by
+  intro h
+  have hS : symmetrize lo hi g g0 = List.map h := funext fun xyz => symmetrize_spec lo hi g g0 xyz
+  rw [hS]
+  exact ⟨symmetrizeNeuron_tree_mesh h n, symmetrizeNeuron_dots_k h n, symmetrizeNeuron_dots_helpers h n⟩
+
 /-! ## 3. face re-winding -/
 
 /-- **rewind_involution.** Re-winding twice is the identity (one face, and a whole face table). -/
@@ -300,6 +324,14 @@ example : tangentOK 0 ⟨0, -1/2, 0⟩ ⟨0, 1, 0⟩ = false := by decide +kerne
 example : (2 : Rat) * 2 * V3.normSq ⟨0, -1/2, 0⟩ = 1 := by decide +kernel
 example : symmetrize 0 10 (mirrorFn .x 10 none) (mirrorFn .x 10 (some (V3.add ⟨1, 0, 0⟩))) [⟨2, 0, 0⟩, ⟨7, 1, 1⟩]
     = [⟨2, 0, 0⟩, ⟨8, 1, 1⟩] := by decide +kernel
+/-- a k-less Dotprops keeps (un-normalised) tangents through `symmetrize_brain`: the point right of the midplane
+`x = 5` is moved by the warp, the other one is kept -/
+def sampleDots2 : Neuron String String String :=
+  { sampleDots with pts := ⟨[⟨2, 0, 0⟩, ⟨7, 1, 1⟩], ["a", "b"]⟩, conns := none }
+
+example : (symmetrizeNeuron (symmetrize 0 10 (mirrorFn .x 10 (some (V3.add ⟨1, 0, 0⟩))) (mirrorFn .x 10 none))
+    sampleDots2).map (fun n => (n.pts.xyz, n.vect))
+    = some ([⟨2, 0, 0⟩, ⟨6, 1, 1⟩], some [⟨-2, 0, 0⟩, ⟨0, -2, 0⟩]) := by decide +kernel
 example : checkXform 0 T1.apply 0 sampleTree (specXform T1.apply 0 sampleTree) = true := by decide +kernel
 
 end Navis.Props.C16
